@@ -37,6 +37,7 @@ func chooser(seed uint64) func(int) int {
 
 // binary is one executable version + command line: a registry builder and its target.
 type binary struct {
+	prod     bool // the registry is the node's (resume tokens at the released positions belong to the released migrations)
 	desc     string
 	build    func(rl *runLog, cancel func()) *migration.Registry
 	target   migration.SchemaVersion
@@ -53,6 +54,29 @@ type inject struct {
 	tag          string
 	readErr      *readTarget                         // one transient read error (class real/read-error)
 	onApplied    func(bit int, img *memory.Database) // root: right after the runner's commit that set an applied bit (img is live: read only)
+	// faults named by CONTENT (class cross/history: the schedule of a start that follows a cancelled start
+	// is not a function of the tape, so operation numbers cannot name a point of it)
+	cancelIn *opTarget // cancel the context just before that operation executes
+	failIn   *opTarget // that commit returns an error, nothing applied
+	crashIn  *opTarget // the process dies right after that commit: startRes.crashImg is the database it leaves
+	// golden runs: the caller has already put the bookkeeping records into the previous release's encoding
+	// (a start that must leave the database untouched is compared with the image it was given)
+	transcoded bool
+}
+
+// opTarget names one database operation of a start: the ord-th (0-based) operation - or, with commits
+// set, the ord-th commit - issued while migration mig executes (-1: by the runner itself).
+type opTarget struct {
+	mig, ord int
+	commits  bool
+}
+
+func (t *opTarget) String() string {
+	what := "operation"
+	if t.commits {
+		what = "commit"
+	}
+	return fmt.Sprintf("%s #%d of migration %d", what, t.ord, t.mig)
 }
 
 // readTarget names the read that fails by CONTENT: the ord-th (0-based) scheduled read of this start
@@ -62,34 +86,40 @@ type readTarget struct {
 	ord   int
 	mode  int
 	nth   int
+	byMig bool // name the read by the migration executing (mig) instead of by the stage
+	mig   int
 }
 
 // startRes is the observable outcome of one binary start (NewRunner + Run).
 type startRes struct {
-	refused     error
-	runErr      error
-	rl          *runLog
-	pre, post   migration.SchemaMetadata
-	preStates   map[int][]byte
-	postStates  map[int][]byte
-	ops         int
-	commits     int
-	cancelFired bool
-	cancelInfo  opInfo
-	cancelStage string
-	failFired   bool
-	failInfo    opInfo
-	ctxErrAtEnd error
-	capped      bool
-	stages      []string          // stage of every released operation (index j-1)
-	migCommits  map[int]int       // applied commits by the migration that was executing (-1: the runner)
-	readStages  map[string]int    // scheduled reads (other than snapshots) per stage
-	readNames   map[string]string // name of the first scheduled read of every stage
-	readArmed   bool              // the targeted read was scheduled
-	readArmedAt int               // its operation number
-	readInfo    opInfo            // what it was
-	readFired   bool              // ... and the error reached the code under test
-	readHow     string            // get has iter_open iter_value iter_stop
+	refused           error
+	runErr            error
+	rl                *runLog
+	pre, post         migration.SchemaMetadata
+	preStates         map[int][]byte
+	postStates        map[int][]byte
+	ops               int
+	commits           int
+	cancelFired       bool
+	cancelInfo        opInfo
+	cancelStage       string
+	failFired         bool
+	failInfo          opInfo
+	ctxErrAtEnd       error
+	capped            bool
+	stages            []string          // stage of every released operation (index j-1)
+	migCommits        map[int]int       // applied commits by the migration that was executing (-1: the runner)
+	readStages        map[string]int    // scheduled reads (other than snapshots) per stage
+	readNames         map[string]string // name of the first scheduled read of every stage
+	readArmed         bool              // the targeted read was scheduled
+	readArmedAt       int               // its operation number
+	readInfo          opInfo            // what it was
+	readFired         bool              // ... and the error reached the code under test
+	readHow           string            // get has iter_open iter_value iter_stop
+	opMig             []int             // migration executing when operation j was released (index j-1; -1: the runner)
+	crashImg          *memory.Database  // inject.crashIn: the database right after the targeted commit (nil: the commit never happened)
+	crashInfo         opInfo
+	crashPruneCommits int // commits of the history pruner applied up to and including that commit
 }
 
 type env struct {
@@ -98,11 +128,24 @@ type env struct {
 	// first mismatch between the registry the node builds and the released schema noted in this run
 	// (migs.go: registryShape; reported by C18 when the run ends)
 	shape *mismatch
+	// first golden record the code under test reads differently from the values it was made from
+	// (golden.go: goldenSelfCheck; reported by C18 when the run ends unless a behavioural oracle speaks first)
+	misread *mismatch
+	// golden run: the bookkeeping records of the pre-migration database are the literal bytes of the
+	// previous release, and every start finds them in that encoding (transcodeToReleased)
+	golden bool
 }
 
 func readStates(c *sim.Ctx, r db.KeyValueReader, n int) map[int][]byte {
 	out := map[int][]byte{}
 	for i := 0; i < n; i++ {
+		// a record under the released key is there whatever the code under test makes of it
+		if raw, found, err := rawGet(r, relStateKey(i)); err != nil {
+			c.Broken("read intermediate state %d: %v", i, err)
+		} else if found {
+			out[i] = raw
+			continue
+		}
 		st, err := migration.GetIntermediateState(r, uint8(i))
 		if err != nil {
 			if isNotFound(err) {
@@ -124,6 +167,10 @@ const maxEntries = 12
 func (e *env) start(img *memory.Database, b binary, in inject) *startRes {
 	c := e.c
 	res := &startRes{rl: &runLog{active: -1, sch: e.s}}
+	if e.golden && !in.transcoded {
+		// every bookkeeping record this start finds is in the encoding of the previous release
+		transcodeToReleased(c, img, b.prod)
+	}
 	res.pre = readMeta(c, img)
 	res.preStates = readStates(c, img, maxEntries)
 	ctx, cancel := context.WithCancel(context.Background())
@@ -141,6 +188,9 @@ func (e *env) start(img *memory.Database, b binary, in inject) *startRes {
 		maxOps:       200000,
 	}
 	var commitActive []int // migration executing when commit k was released (index k-1)
+	var commitOrd []int    // ordinal of commit k among the commits of that migration
+	opsBy, commitsBy := map[int]int{}, map[int]int{}
+	curOrd, curCommitOrd := 0, 0 // ordinals of the operation being released
 	res.migCommits = map[int]int{}
 	lastApplied := res.pre.CurrentVersion
 	p.afterCommit = func(k int, info opInfo) {
@@ -155,14 +205,24 @@ func (e *env) start(img *memory.Database, b binary, in inject) *startRes {
 		if in.images != nil {
 			in.images(k, info, commitActive[k-1], img.Copy())
 		}
+		if t := in.crashIn; t != nil && res.crashImg == nil && commitActive[k-1] == t.mig && commitOrd[k-1] == t.ord {
+			res.crashImg, res.crashInfo, res.crashPruneCommits = img.Copy(), info, res.migCommits[idxPrune]
+			cancel() // the rest of this start never happened: let it end quickly
+		}
 	}
 	stageAtCancel := ""
 	p.onOp = func(j int, info opInfo, nParked, chosen int) {
 		if in.logOps {
 			c.Logf("%s op %d/%d of %d: %s (mig %d)", in.tag, j, chosen, nParked, info, res.rl.active)
 		}
+		res.opMig = append(res.opMig, res.rl.active)
+		curOrd = opsBy[res.rl.active]
+		opsBy[res.rl.active]++
 		if info.kind == opCommit {
 			commitActive = append(commitActive, res.rl.active)
+			curCommitOrd = commitsBy[res.rl.active]
+			commitsBy[res.rl.active]++
+			commitOrd = append(commitOrd, curCommitOrd)
 		}
 		st := stageOf(res.rl.active, info)
 		res.stages = append(res.stages, st)
@@ -170,7 +230,29 @@ func (e *env) start(img *memory.Database, b binary, in inject) *startRes {
 			stageAtCancel = st
 		}
 	}
+	hit := func(t *opTarget, info opInfo) bool {
+		if t == nil || t.mig != res.rl.active {
+			return false
+		}
+		if t.commits {
+			return info.kind == opCommit && curCommitOrd == t.ord
+		}
+		return curOrd == t.ord
+	}
+	if in.cancelIn != nil {
+		p.cancelWhen = func(j int, info opInfo) bool {
+			if hit(in.cancelIn, info) {
+				stageAtCancel = res.stages[j-1]
+				return true
+			}
+			return false
+		}
+	}
+	if in.failIn != nil {
+		p.failWhen = func(_ int, info opInfo) bool { return hit(in.failIn, info) }
+	}
 	res.readStages, res.readNames = map[string]int{}, map[string]string{}
+	readsBy := map[int]int{}
 	var armed *readFault
 	p.readFault = func(j int, info opInfo) *readFault {
 		if info.name == "snapshot" {
@@ -182,7 +264,9 @@ func (e *env) start(img *memory.Database, b binary, in inject) *startRes {
 		if n == 0 {
 			res.readNames[st] = info.name
 		}
-		if t := in.readErr; t != nil && armed == nil && t.stage == st && t.ord == n {
+		nm := readsBy[res.rl.active]
+		readsBy[res.rl.active]++
+		if t := in.readErr; t != nil && armed == nil && ((!t.byMig && t.stage == st && t.ord == n) || (t.byMig && t.mig == res.rl.active && t.ord == nm)) {
 			mode := t.mode
 			if !strings.HasSuffix(info.name, "iter") {
 				mode = rfCall
